@@ -25,15 +25,21 @@ ASSUMPTIONS = ["the schedule is owned at job granularity; interleavings inside n
                "a batch is released when the submitting thread first blocks on a result, or after 0.2 s of quiescence"]
 
 
-def run_gamma(case):
-    """one seeded gamma computation -> JSON-able numbers"""
+def make_sampler(case):
+    pa = import_library()
+    k = case["sampler"]
+    return pa.StatisticalContinuumSampler() if k == "statistical" else pa.ShuffleContinuumSampler(
+        pivot_type="int_pivot" if k == "shuffle-int" else "float_pivot")
+
+
+def run_gamma(case, smp=None):
+    """one seeded gamma computation -> JSON-able numbers (smp: a sampler object re-used from earlier runs)"""
     pa = import_library()
     cont, spec = case["continuum"], case["dissim"]
     c = oracle.build_continuum(cont)
     d = oracle.build_dissim(spec)
-    k = case["sampler"]
-    smp = pa.StatisticalContinuumSampler() if k == "statistical" else pa.ShuffleContinuumSampler(
-        pivot_type="int_pivot" if k == "shuffle-int" else "float_pivot")
+    if smp is None:
+        smp = make_sampler(case)
     gt = case.get("ground_truth")
     if gt is not None:
         # the caller's container type is the caller's business: an (unordered) set must give the same results
@@ -77,13 +83,17 @@ def check_schedules(case):
         ref = run_gamma(case)
     except Exception as e:
         raise Violation(f"compute_gamma:raises:{type(e).__name__}", repr(e))
+    # "however many times it is repeated in one process": half of the cases hand the SAME sampler object to every
+    # later run (state carried by a re-used sampler must not matter), the others build a fresh one each time
+    shared = make_sampler(case) if case.get("shared_sampler") else None
     classes = [f"mode={case['mode']}", f"sampler={case['sampler']}", "precision" if case["precision"] else "no-precision",
+               "shared-sampler-object" if case.get("shared_sampler") else "fresh-sampler-per-run", f"shape={case['continuum'].get('shape')}",
                f"gt={case.get('gt_container') if case.get('ground_truth') else 'None'}"]
     nontrivial = False
     for i, s in enumerate(case["schedules"]):
         schedule = sched.Schedule(s["workers"], s["keys"], s["delays"])
         with sched.owned_schedule(schedule):
-            other = lib_call("compute_gamma[owned schedule]", run_gamma, case)
+            other = lib_call("compute_gamma[owned schedule]", run_gamma, case, shared)
         compare(ref, other, "owned-schedule")
         if schedule.reordered and s["workers"] >= 2:
             nontrivial = True
@@ -91,9 +101,9 @@ def check_schedules(case):
         classes.append(f"workers={'1' if s['workers'] == 1 else ('2-4' if s['workers'] <= 4 else '5-16')}")
     for w in case["pool_sizes"]:
         with sched.cpu_count(w):
-            other = lib_call("compute_gamma[real pool]", run_gamma, case)
+            other = lib_call("compute_gamma[real pool]", run_gamma, case, shared)
         compare(ref, other, f"real-pool")
-    again = lib_call("compute_gamma[repeat]", run_gamma, case)
+    again = lib_call("compute_gamma[repeat]", run_gamma, case, shared)
     compare(ref, again, "repetition")
     if len(ref["chance"]) > case["n_samples"]:
         classes.append("second-batch")
@@ -158,6 +168,18 @@ def schedule_cases(draw):
         scheds.append({"workers": draw(st.sampled_from([1, 2, 2, 3, 4, 8, 16])),
                        "keys": draw(st.lists(st.integers(0, 1000), min_size=3, max_size=12)),
                        "delays": draw(st.lists(st.integers(0, 3), min_size=1, max_size=6))})
+    cs["shared_sampler"] = draw(st.booleans())
+    if cs["mode"] == "fast" and draw(st.booleans()):
+        # long, overlapping sequential annotations: fast-gamma's estimated window is finite there
+        spec = draw(gen.dissim_specs(kinds=("combined", "combined", "pos"), equal_delta_only=True))
+        if spec["kind"] == "combined" and spec["alpha"] < 1:
+            spec["alpha"] = 1.0
+        cs["dissim"] = spec
+        cs["continuum"] = draw(gen.sequence_continua(labels=gen.labels_for(spec), sizes=((3, 30, 36), (4, 15, 18))))
+        cs["sampler"] = "statistical"
+        cs["n_samples"] = draw(st.integers(2, 4))
+        cs["precision"] = None
+        cs["ground_truth"] = None
     cs["schedules"] = scheds
     cs["pool_sizes"] = draw(st.lists(st.sampled_from([1, 2, 3, 5, 16]), min_size=1, max_size=2, unique=True))
     return cs
